@@ -559,7 +559,8 @@ def check(tier_name: str, seed: int, max_cases: int | None = None) -> int:
         "rule": "A case = seeded (model recipe, call configuration). For each case every single fault (k, kind) applicable to event k of its "
                 "fault-free fs-event trace is executed as its own simulated save, plus disk-capacity limits at tensor/4KiB/file boundaries "
                 "and a seeded sample, plus seeded second faults on events that only exist during error unwinding. evaluations counts simulated "
-                "saves (fault-free, faulted, and the fault-free retry after a failed save). distinct_nontrivial counts distinct "
+                "saves (fault-free, faulted, the fault-free retry after a failed save, the second and third saves of the same model and the save "
+                "after the caller edited the model). distinct_nontrivial counts distinct "
                 "(fs-event prefix up to the fault, fault kind, parameter class) in which the fault actually fired after the save had made "
                 "progress (at least one write/read/fileno event, or a non-zero capacity).",
         "samples": samples,
